@@ -332,25 +332,197 @@ def count_nontrivial(triples):
 
 
 # --------------------------------------------------------------------------
+def sane_case(rng):
+    """a state as a run of a policy that does not plan ahead produces it at a scheduler invocation:
+    a prefix of the DAG is COMPLETED (completion times in the past), the tasks whose parents are all complete
+    are RELEASED / SCHEDULED (start in the future) / RUNNING (time left), everything else is VIRTUAL"""
+    adj = rand_dag(rng, rng.choice([2, 3, 4, 5, 5, 6]), rng.choice([0.3, 0.5, 0.7]))
+    tasks = gen_tasks(rng, adj, None, "fresh")
+    nodes = key_order(adj)
+    par = parents_of(adj)
+    time = rng.choice([5, 8, 12])
+    done = set()
+    changed = True
+    while changed:
+        changed = False
+        for n in nodes:
+            if n not in done and all(p in done for p in par[n]) and rng.random() < 0.45:
+                done.add(n)
+                changed = True
+    for n in nodes:
+        f = tasks[n]
+        f[5] = False
+        f[6] = False
+        f[9] = [r if r > 0 else 1 for r in f[9]]
+        if n in done:
+            f[0], f[3], f[8] = 7, 0, rng.choice([0, 2, time])
+        elif all(p in done for p in par[n]):
+            st = rng.choice([1, 2, 2, 3, 4, 5])
+            f[0] = st
+            f[1] = rng.choice([0, 3, time])
+            if st == 3:
+                f[3] = rng.choice([1, 4])
+                f[7] = time + rng.choice([0, 1, 5]) if rng.random() < 0.8 else time - f[3] + 1
+            elif st in (4, 5):
+                f[3] = rng.choice([1, 2, 4])
+    o = {"time": time, "lookahead": 0, "preemption": rng.random() < 0.3, "retract": False, "placed": None,
+         "policy": 4, "release_tg": False}
+    return adj, tasks, ["sched", o, []]
+
+
+def bigger(rng, o):
+    o2 = dict(o)
+    o2["lookahead"] = o["lookahead"] + rng.choice([0, 1, 3, 10, 40])
+    o2["release_tg"] = o["release_tg"] or rng.random() < 0.5
+    return o2
+
+
+def py_frontier_check(adj, tasks, o, fr):
+    for n, f in tasks.items():
+        if f[0] == 2 and f[1] <= o["time"] + o["lookahead"] and n not in fr:
+            return False
+    for n in fr:
+        s = tasks[n][0]
+        if s in (7, 8) or (s == 3 and not (o["retract"] or o["preemption"])) or (s == 4 and not o["preemption"]):
+            return False
+    return True
+
+
+def py_children_check(adj, tasks, t, rel):
+    ch = dict((a, b) for a, b in canon_adj(adj))
+    par = parents_of(adj)
+    want = [c for c in ch[t] if tasks[c][0] != 8 and (tasks[c][5] or all(tasks[p][0] in (6, 7) for p in par[c]))]
+    return sorted(rel) == sorted(want) and len(set(rel)) == len(rel)
+
+
 def run(ctx):
     ctx.fingerprint(FILES)
     ctx.translate(["Task", "TaskGraph"])
     ctx.build("C18", deps=["Model/TaskGraph.v"])
     quick = ctx.tier == "quick"
-    n = 900 if quick else 12000
-    kinds = ["sched", "sched", "sched", "releasable", "notify", "ready", "resolve", "topo", "dfs", "flags"]
-    triples = [rand_case(ctx.rng, kinds) for _ in range(n)]
+    rng = ctx.rng
+    n = 700 if quick else 10000
+    kinds = ["sched", "sched", "sched", "releasable", "notify", "notify", "ready", "resolve", "topo", "dfs", "flags"]
+    triples = [rand_case(rng, kinds) for _ in range(n)]
+    triples += [sane_case(rng) for _ in range(n // 4)]
+    # monotonicity pairs: the same graph / draws with a larger lookahead and/or release_taskgraphs
+    pairs = []
+    for i in range(len(triples)):
+        a, t, op = triples[i]
+        if op[0] == "sched" and len(pairs) < (200 if quick else 3000):
+            triples.append((a, t, ["sched", bigger(rng, op[1]), op[2]]))
+            pairs.append((i, len(triples) - 1))
     ctx.rules.append("S-taskgraph: (DAG x per-task state vector x operation) on 1-8 nodes: random DAGs with random key/children "
                      "order and structured conditional/join graphs (nested, empty branches, extra parents), all 8 task states, "
-                     "operations get_schedulable_tasks under all switch combinations / lookaheads / times / 5 branch policies, "
-                     "get_releasable_tasks, notify_task_completion with each draw, is_ready_to_run, resolve_conditional, "
-                     "topological_sort, depth_first, is_complete/is_cancelled; distinct = distinct (mapping, tasks, operation); "
+                     "run-like states (completed prefix, released / scheduled / running tasks below it), "
+                     "operations get_schedulable_tasks under all switch combinations / lookaheads / times / 5 branch policies "
+                     "(RANDOM fed with recorded draws) with and without worker-pool placed tasks, the same call again with a larger "
+                     "lookahead / release_taskgraphs, get_releasable_tasks, notify_task_completion with each draw, is_ready_to_run, "
+                     "resolve_conditional, topological_sort, depth_first, is_complete/is_cancelled; S-workload: "
+                     "Workload.get_schedulable_tasks over 2-3 graphs; distinct = distinct (mapping, tasks, operation); "
                      "non-trivial = at least 3 tasks and one edge")
     ctx.cov["distinct_nontrivial"] += count_nontrivial(triples)
     dist = {}
     for _, _, op in triples:
         dist[op[0]] = dist.get(op[0], 0) + 1
-    ctx.cov["input_distribution"] = {"ops": dist}
     res = run_correspondence(ctx, "S-taskgraph", triples,
                              "the real TaskGraph operation and the model disagree (returned task list in order / states afterwards)")
     ctx.sample({"stream": "S-taskgraph", "mapping": triples[0][0], "op": triples[0][2], "impl": res[0]})
+
+    # ---- S-workload
+    wl_cases = []
+    wl_payload = []
+    for _ in range(60 if quick else 800):
+        gs = []
+        for gi in range(rng.choice([2, 2, 3])):
+            a, t, _ = rand_case(rng, ["flags"])
+            gs.append((a, t))
+        o = rand_opts(rng, [], {})
+        if rng.random() < 0.2:
+            o["placed"] = [[gi, n] for gi, (a, t) in enumerate(gs) for n in key_order(a) if t[n][0] in (3, 4) and rng.random() < 0.6]
+        draws = [rng.randrange(3) for _ in range(24)]
+        wl_payload.append({"graphs": [spec_of(a, t) for a, t in gs], "op": ["wl_sched", o, draws]})
+        wl_cases.append((gs, o, draws))
+    wl_impl = core.run_impl("taskgraph.py", {"cases": wl_payload})["results"]
+
+    def g_wl_opts(o):
+        # the model takes the placed tasks per graph: (graph index, id) pairs are passed to every graph in the
+        # code as the same list of Task objects; ids are unique per graph here, so they are renumbered g*100+id
+        return g_opts(o)
+    cases = []
+    for (gs, o, draws), r in zip(wl_cases, wl_impl):
+        if o["placed"] is not None:
+            continue        # worker-pool tasks of several graphs: covered per graph in S-taskgraph
+        txt = "(%s, %s, %s)" % (glist([g_graph(a, t) for a, t in gs]), g_opts(o), glist([gz(d) for d in draws]))
+        cases.append((txt, r, [[a for a, _ in gs], o, draws]))
+    try:
+        mism = ctx.model_stream("S-workload", HEADER, "list tgraph * sched_opts * list Z", "wl_observe", cases)
+        for idx, mv in mism[:3]:
+            ctx.violation("workload%d" % idx, {"stream": "S-workload", "case": cases[idx][2], "implementation": cases[idx][1],
+                                               "model": mv, "what": "Workload.get_schedulable_tasks differs from the "
+                                               "concatenation of the per-graph frontiers"})
+    except core.ModelEvalError as e:
+        ctx.broken.append({"kind": "correspondence", "name": "S-workload", "detail": str(e)[-600:]})
+
+    # ---- monitors on the implementation's results
+    fcases, fwhere, ccases, cwhere = [], [], [], []
+    nsane = 0
+    for i, ((a, t, op), r) in enumerate(zip(triples, res)):
+        if op[0] == "sched" and op[1]["placed"] is None and r[0] == 0:
+            fcases.append("(%s, %s, %s)" % (g_graph(a, t), g_opts(op[1]), glist([gz(x) for x in r[1][0]])))
+            fwhere.append(i)
+        if op[0] == "notify" and not t[op[1]][6] and r[0][0] == 0:
+            ccases.append("(%s, %s, %s)" % (g_graph(a, t), gz(op[1]), glist([gz(x) for x in r[0][1][0]])))
+            cwhere.append(i)
+    mcases, mwhere = [], []
+    for i, j in pairs:
+        if res[i][0] == 0 and res[j][0] == 0:
+            mcases.append("(%s, %s)" % (glist([gz(x) for x in res[i][1][0]]), glist([gz(x) for x in res[j][1][0]])))
+            mwhere.append((i, j))
+    dist.update({"frontier_monitored": len(fcases), "mono_pairs": len(mcases), "children_monitored": len(ccases),
+                 "workload_cases": len(cases)})
+    ctx.cov["input_distribution"] = {"ops": dist}
+
+    def report(idx, tag, what, extra=None):
+        a, t, op = triples[idx]
+        d = {"stream": "S-taskgraph monitor", "mapping": a,
+             "tasks(state,release,deadline,raw_remaining,prob/16,terminal,conditional,expected_start,completion,runtimes)": t,
+             "operation": op, "implementation": res[idx], "what": what}
+        d.update(extra or {})
+        ctx.violation("%s%d" % (tag, idx), d)
+    W1 = ("get_schedulable_tasks: a RELEASED task whose release time has arrived is missing, or a COMPLETED / CANCELLED task is "
+          "offered, or a SCHEDULED / RUNNING task is offered without retraction / preemption")
+    W2 = "a policy that does not plan ahead (lookahead 0, no retraction, no release_taskgraphs) was offered a VIRTUAL task with an unfinished parent"
+    W3 = "a larger lookahead / release_taskgraphs removed a task from the frontier"
+    W4 = "notify_task_completion did not release exactly the children whose every parent is complete (join: after its first parent)"
+    try:
+        for b in ctx.monitor_stream("S-frontier", HEADER, "tgraph * sched_opts * list Z", "c18_frontier_check", fcases)[:3]:
+            report(fwhere[b], "frontier", W1)
+        bad = ctx.monitor_stream("S-no-plan-ahead", HEADER, "tgraph * sched_opts * list Z", "c18_no_plan_ahead_check", fcases)
+        napp = len(ctx.monitor_stream("S-no-plan-ahead-applies", HEADER, "tgraph * sched_opts * list Z",
+                                      "(fun x => negb (c18_no_plan_ahead_applies x))", fcases))
+        ctx.cov["input_distribution"]["no_plan_ahead_side_conditions_hold"] = napp
+        ctx.cov["streams"].pop("S-no-plan-ahead-applies:monitor", None)      # a counter, not a verdict
+        for b in bad[:3]:
+            report(fwhere[b], "planahead", W2)
+        for b in ctx.monitor_stream("S-mono", HEADER, "list Z * list Z", "c18_mono_check", mcases)[:3]:
+            i, j = mwhere[b]
+            report(i, "mono", W3, {"second_call_options": triples[j][2][1], "second_call_result": res[j]})
+        for b in ctx.monitor_stream("S-children", HEADER, "tgraph * Z * list Z", "c18_children_check", ccases)[:3]:
+            report(cwhere[b], "children", W4)
+    except core.ModelEvalError as e:
+        ctx.broken.append({"kind": "monitor", "name": "c18 monitors", "detail": str(e)[-600:]})
+        for i in fwhere:
+            a, t, op = triples[i]
+            if not py_frontier_check(a, t, op[1], res[i][1][0]):
+                report(i, "frontier", W1 + " (Python fallback of the monitor)")
+                break
+        for i, j in mwhere:
+            if not set(res[i][1][0]) <= set(res[j][1][0]):
+                report(i, "mono", W3 + " (Python fallback)", {"second_call_options": triples[j][2][1], "second_call_result": res[j]})
+                break
+        for i in cwhere:
+            a, t, op = triples[i]
+            if not py_children_check(a, t, op[1], res[i][0][1][0]):
+                report(i, "children", W4 + " (Python fallback)")
+                break
